@@ -344,18 +344,22 @@ PROP_FIELDS = {b"A,p": ["Ap", "ApC"], b"Bdir,p": ["Bdirp", "BdirpC"], b"Bind,p":
 def partially_withdrawn(root):
     """True when some statement below root carries a value both as private link of a component value and still as
     leaf of the shared property field it was to be withdrawn from (signature of F21)."""
+    def key(e):
+        # a primitive value, or a nested statement (compared by its content)
+        return e if isinstance(e, bytes) else repr(e) if isinstance(e, tuple) and e[0] == 'T' else None
+
     def stmt_has(st):
         shared = {}
         for f, n in st:
             for lf in leaves(n):
-                if isinstance(lf[6], bytes):
-                    shared.setdefault(f, set()).add(lf[6])
+                if key(lf[6]) is not None:
+                    shared.setdefault(f, set()).add(key(lf[6]))
         for f, n in st:
             for lf in leaves(n):
                 for pv in lf[7]:
-                    if isinstance(pv[6], bytes):
+                    if key(pv[6]) is not None:
                         for pf in PROP_FIELDS.get(pv[1], []):
-                            if pv[6] in shared.get(pf, ()):
+                            if key(pv[6]) in shared.get(pf, ()):
                                 return True
         return any(stmt_has(x) for x in nested_statements(st)[:0])   # nested ones are visited below
     for n in top_statement_nodes(root):
